@@ -221,6 +221,9 @@ fn alias_setups() -> Vec<Vec<Value>> {
     vec![json!({"from": "CAPSLOCK", "to": "@a"}), json!({"from": ["RIGHTALT", "TAB"], "to": ["LEFTCTRL", "@a"]})],
     vec![json!({"from": "LEFTSHIFT", "to": "@a"}), json!({"from": "RIGHTSHIFT", "to": "@a"}), json!({"from": "CAPSLOCK", "to": "@b"}), json!({"from": "RIGHTALT", "to": ["F13", "@b"]})],
     vec![json!({"from": ["LEFTCTRL", "LEFTALT"], "to": "@a"}), json!({"from": "RIGHTCTRL", "to": ["@a"]}), json!({"from": "F14", "to": ["LEFTMETA", "F15", "@b"]})],
+    // three aliases with 2 / 1 / 2 and 3 / 2 / 2 definitions: every combination must appear, first alias varying fastest
+    vec![json!({"from": "LEFTSHIFT", "to": "@a"}), json!({"from": "RIGHTSHIFT", "to": "@a"}), json!({"from": "CAPSLOCK", "to": "@b"}), json!({"from": "LEFTALT", "to": "@c"}), json!({"from": "RIGHTALT", "to": "@c"})],
+    vec![json!({"from": "LEFTSHIFT", "to": "@a"}), json!({"from": "RIGHTSHIFT", "to": "@a"}), json!({"from": "F17", "to": "@a"}), json!({"from": "CAPSLOCK", "to": "@b"}), json!({"from": "TAB", "to": "@b"}), json!({"from": "LEFTALT", "to": "@c"}), json!({"from": "RIGHTALT", "to": "@c"})],
   ]
 }
 
@@ -242,8 +245,8 @@ pub fn programs(thorough: bool) -> Vec<Value> {
     }
   } } }
   // (2) single mappings: modifiers x outputs x repeat forms x absorbing forms, with neighbours
-  let modsets: Vec<Value> = vec![json!([]), json!(["@a"]), json!(["CAPSLOCK"]), json!(["@a", "CAPSLOCK"]), json!(["@a", "@b"]), json!(["@b", "TAB", "@a"]), json!(["TAB", "@a", "F16"])];
-  let tos: Vec<Value> = vec![json!([]), json!("X"), json!(["X"]), json!(["@a", "X"]), json!(["LEFTCTRL", "@a", "X"]), json!(["@b", "@a", "X"])];
+  let modsets: Vec<Value> = vec![json!([]), json!(["@a"]), json!(["CAPSLOCK"]), json!(["@a", "CAPSLOCK"]), json!(["@a", "@b"]), json!(["@b", "TAB", "@a"]), json!(["TAB", "@a", "F16"]), json!(["@a", "@b", "@c"]), json!(["@c", "@a", "F16", "@b"])];
+  let tos: Vec<Value> = vec![json!([]), json!("X"), json!(["X"]), json!(["@a", "X"]), json!(["LEFTCTRL", "@a", "X"]), json!(["@b", "@a", "X"]), json!(["@c", "@a", "X"])];
   let repeats: Vec<Option<Value>> = vec![None, Some(json!("Disabled")), Some(json!("disabled")), Some(json!("Normal")), Some(json!({"Special": {"keys": "F21", "delay_ms": 180, "interval_ms": 30}})), Some(json!({"Special": {"keys": ["@a", "F21"], "delay_ms": 1, "interval_ms": 2}})), Some(json!({"Special": {"keys": [], "delay_ms": 1, "interval_ms": 2}}))];
   let absorbs: Vec<Option<Value>> = vec![None, Some(json!("@a")), Some(json!(["@a"])), Some(json!(["CAPSLOCK"])), Some(json!([]))];
   for d in &defs { for ms_ in &modsets { for to in &tos { for rp in &repeats { for ab in &absorbs {
@@ -265,7 +268,7 @@ pub fn programs(thorough: bool) -> Vec<Value> {
   // (3) whole-row programs with output modifiers, row repeats and absorbing
   let row_tos: Vec<Value> = vec![json!({"letters": "aoeu"}), json!(["RIGHTALT", {"letters": ":<"}]), json!(["@a", {"letters": " X y"}]), json!({"letters": "AbCdEfGhIj"})];
   let row_reps: Vec<Option<Value>> = vec![None, Some(json!("Disabled")), Some(json!({"Special": {"keys": {"letters": "xy"}, "delay_ms": 10, "interval_ms": 20}})), Some(json!({"Special": {"keys": ["@a", {"letters": " Z"}], "delay_ms": 10, "interval_ms": 20}})), Some(json!({"Special": {"keys": ["LEFTCTRL", {"letters": "q"}], "delay_ms": 10, "interval_ms": 20}}))];
-  for d in &defs { for ms_ in modsets.iter().take(6) { for to in &row_tos { for rp in &row_reps { for ab in absorbs.iter().take(4) { for row in ["Q", "z", "1"] {
+  for d in &defs { for ms_ in modsets.iter() { for to in &row_tos { for rp in &row_reps { for ab in absorbs.iter().take(4) { for row in ["Q", "z", "1"] {
     let mut from = ms_.as_array().unwrap().clone(); from.push(json!({ "row": row }));
     let mut m = json!({"from": from, "to": to});
     if let Some(r) = rp { m["repeat"] = r.clone(); }
@@ -285,9 +288,11 @@ pub fn programs(thorough: bool) -> Vec<Value> {
     json!({"from": ["J", "@a"], "repeat": {"Special": {"keys": ["@a", "F22"], "delay_ms": 7, "interval_ms": 8}}}),
     json!({"from": ["LEFTSHIFT", "J"], "to": [], "absorbing": "LEFTSHIFT"}),
     json!({"from": "K", "repeat": "Normal"}),
+    json!({"from": ["@a", "@b", "@c", "J"], "to": ["@c", "@a", "UP"]}),
+    json!({"from": ["@c", "@b", "@a", "J"], "repeat": "Disabled"}),
   ];
   let kmax = if thorough { 3 } else { 2 };
-  for d in defs.iter().skip(1).take(if thorough { 5 } else { 3 }) {
+  for d in defs.iter().skip(1).take(if thorough { 7 } else { 3 }) {
     let n = menu.len();
     for len in 1..=kmax { for idx in 0..n.pow(len as u32) {
       let mut j = idx; let mut ms = d.clone();
